@@ -299,6 +299,20 @@ def finding_key(req, obs, detail):
         line = detail.split("failed to parse source", 1)[1]
         if re.search(r"[^<]<(?![<=]).*[^>\-]>(?![>=]) \(", line):
             return TEMPLATE_LOOKAHEAD_KEY
+    for msg in ("expression could not be evaluated as a constant expression", "function call applied to non-function type"):
+        # the same look-ahead when the bogus reading PARSES: `g1 + g1 < g1 << g1 && (g1 | g1) > (uint)(2.5f, 2)` is read as
+        # `g1 + g1<g1 << g1 && (g1 | g1)>(uint)(..)` - a template instantiation whose argument is not a constant - and
+        # `7u >> 0u < 1u && (uint)2.5f > (c ? a : b)` as a call of `0u<..>(..)`; the typer then refuses what the parser
+        # accepted.  Recognised by the message, by the shape of the offending line and by the error position: the caret
+        # stands at or after the operand in front of the first `<` of that shape
+        if "emitted HLSL is rejected" in (detail or "") and msg in detail:
+            line = detail.split(msg, 1)[1]
+            mm = re.match(r"\\+n(.*?)\\+n( *)\^", line)
+            if mm:
+                text, col = mm.group(1), len(mm.group(2))
+                sh = re.search(r"[^<]<(?![<=]).*[^>\-]>(?![>=]) \(", text)
+                if sh and col <= sh.start() + 3:
+                    return TEMPLATE_LOOKAHEAD_KEY
     m = re.search(r"emitted HLSL is rejected: .*?error: '(\w+)' was not declared in this scope", detail or "")
     if m and req.startswith("C04.fix\t"):
         # a member of a cbuffer declared inside a namespace is printed by its leaf name (C15's known finding
